@@ -849,9 +849,9 @@ func main() {
 	}
 	var scopes []scope
 	if cfg.Search {
-		scopes = []scope{{full, 0, 0}, {full, 1, 0}, {full, 2, 0}, {full, 3, 0}, {full, 4, 60}, {red, 5, 40}, {red, 6, 6}, {tiny, 7, 1}}
+		scopes = []scope{{full, 0, 0}, {full, 1, 0}, {full, 2, 0}, {full, 3, 0}, {full, 4, 25}, {red, 5, 20}, {tiny, 6, 4}, {tiny, 7, 1}}
 	} else if cfg.Thorough() {
-		scopes = []scope{{full, 0, 0}, {full, 1, 0}, {full, 2, 0}, {full, 3, 0}, {full, 4, 40}, {red, 5, 25}, {tiny, 6, 5}, {tiny, 7, 1}}
+		scopes = []scope{{full, 0, 0}, {full, 1, 0}, {full, 2, 0}, {full, 3, 0}, {full, 4, 12}, {red, 5, 10}, {tiny, 6, 2}, {tiny, 7, 1}}
 	} else {
 		scopes = []scope{{full, 0, 0}, {full, 1, 0}, {full, 2, 0}, {full, 3, 40}, {red, 4, 30}, {tiny, 5, 4}}
 	}
@@ -880,7 +880,7 @@ func main() {
 	r := rng.Fork("random")
 	nr := cfg.Scale(900, 6000)
 	if cfg.Search {
-		nr = 200000
+		nr = 30000
 	}
 	for i := 0; i < nr; i++ {
 		mode := []int{0, 0, 1, 1, 2, 3, 4}[i%7]
@@ -919,7 +919,7 @@ func main() {
 	r = rng.Fork("history")
 	nh := cfg.Scale(400, 4000)
 	if cfg.Search {
-		nh = 50000
+		nh = 8000
 	}
 	history(pl, nil, []tcoin{{1, 1}}, []hop{{Op: "pop"}, {Op: "shift"}, {"push", 0}, {Op: "shift"}, {Op: "shift"}, {Op: "pop"}}, true)
 	history(pl, []tcoin{{3, 2}, {5, 0}}, []tcoin{{7, 7}}, nil, true)
